@@ -121,6 +121,26 @@ NEEDS = {
  "C18f-getmodule-serves-cached-entry": ("C18", ["C18"], "GetModule for a loaded module after a load or after a failing Process"),
  "C19f-entry-cache-memo-under-rlock": ("C19", ["C19"], "concurrent cache-hit lookups of two different nodes of one set"),
  "C20f-blockwise-write-count": ("C20", ["C20"], "a single Write of more than 8192 bytes with a fault in a middle block of 4096"),
+ "C01g-identityset-index-stale-cycle": ("C01", ["C01", "C11"], "a derivation cycle reached after 17 or more identities were collected: stack overflow"),
+ "C02g-punct-run-overflows-channel": ("C02", ["C02"], "nine or more punctuation tokens in a row (nesting depth 8): tokens beyond the channel capacity are dropped"),
+ "C03g-unstable-sort-32-substatements": ("C03", ["C03"], "a statement with 32 or more substatements whose keywords are not in alphabetical order: same-keyword siblings permuted"),
+ "C04g-entry-cache-bound": ("C04", ["C04"], "16384 converted statements in one set: later trees are not cached, Process works on throw-away trees"),
+ "C05g-identityset-17th-unindexed": ("C05", ["C05", "C11"], "17 or more derived identities with one reached along two paths: a duplicate that changes with map order"),
+ "C06g-grouping-index-drops-prefix": ("C06", ["C06"], "a scope with 17 or more groupings, one named like an imported grouping: uses b:target binds to the local one"),
+ "C07g-splitpath-8-slots-augment": ("C07", ["C07", "C17"], "an augment whose target path has 9 or more steps"),
+ "C08g-splitpath-truncates-deviation": ("C08", ["C08", "C17"], "a deviation whose target path has 8 or more steps: applied to the ancestor at depth 7"),
+ "C09g-typedef-name-64-bytes": ("C09", ["C09"], "a typedef whose name is 64 bytes or longer"),
+ "C10g-nine-parts-inline-split": ("C10", ["C10"], "a restriction of exactly nine parts loses the ninth"),
+ "C11g-hoist-level-slice-aliasing": ("C11", ["C11"], "five submodules on three include levels (m: s1 s2; s1: s3 s4; s2: s5)"),
+ "C12g-dup-block-realloc-32": ("C12", ["C12"], "a grouping or augment child with more than 32 nodes below it"),
+ "C13g-lastdir-first-on-long-path": ("C13", ["C13"], "a search path of 9 or more directories and an earlier successful lookup in a later directory"),
+ "C14g-bitword-value-64": ("C14", ["C14"], "two enum members with the value 64"),
+ "C15g-float-fastpath-2-52-band": ("C15", ["C15"], "a decimal whose mantissa lies in [2^52, 2^53): last digit printed off by one"),
+ "C16g-plain-run-bytes-in-col": ("C16", ["C16"], "a double-quoted string with a plain run of 32 or more bytes containing a multi-byte character, and a position later on the line"),
+ "C17g-splitpath-16-slashes": ("C17", ["C17"], "a path with exactly 16 slashes"),
+ "C18g-prefix-index-caches-missing": ("C18", ["C18"], "a module with 8 or more imports, one of them loaded only after a first Process"),
+ "C19g-sorted-dir-cache-17-children": ("C19", ["C19"], "concurrent Print of a directory with 17 or more children"),
+ "C20g-scratch-256-estimate-short": ("C20", ["C20"], "one Write at a line start, not ending in a line break, of about 250 to 256 bytes"),
  "C20b-empty-write-clears-partial": ("C20", ["C20"], "zero-length Write in the middle of a line clears the mid-line flag: the next Write gets a prefix inside the line"),
  "C20-early-out-continued-line": ("C20", ["C20"], "short write of 1..len(prefix) bytes on a Write that continues a partial line returns 0 although caller bytes were written"),
 }
